@@ -52,7 +52,7 @@ def docs(tier):
             "9007199254740991", "9007199254740993", "18446744073709551615", "18446744073709551616", "1e19", "1.0000000000000002", "4.35", "0.000001", "1e-7", "100", "1e21", "1e22", "3.141592653589793", "2.5e-5", "-1e-300"]
     out += nums + ["[" + n + "]" for n in nums] + ['{"n":' + n + "}" for n in nums]
     # width
-    for w in ([10, 100, 1000] if tier == "quick" else [10, 100, 1000, 10000, 100000]):
+    for w in ([10, 100, 1000] if tier == "quick" else [10, 100, 1000, 10000, 30000]):   # (the in-script walker is quadratic in the width; 10^5 members exceed the worker's step budget)
         out.append("[" + ",".join(str(i) for i in range(w)) + "]")
         out.append("{" + ",".join('"k%d":%d' % (i, i) for i in range(w)) + "}")
         out.append("{" + ",".join('"%d":%d' % (i, i) for i in range(w)) + "}")
@@ -190,7 +190,7 @@ def run(tier, seed):
                 chk.fail("%s|%s|%s" % (path, c["id"], text[:3000]), got[:300], "%s via %s: %s   [document %s]" % (c["id"], path, bad, text[:100]),
                          {"text": text if len(text) < 5000 else None, "id": c["id"], "path": path}, cluster=cl)
     chk.coverage = {"evaluations": total, "distinct_nontrivial": len(nontrivial), "families": fam, "samples": [{"text": uniq[37]["text"]}, {"text": uniq[len(uniq) // 2]["text"][:80]}],
-                    "rule": "all documents of the stated shapes over %d leaves x %d keys (every leaf under every key, all ordered key pairs/triples, all trees of depth 2 with <=2 members over reduced alphabets), a number zoo, widths to 1000 (thorough 100000), every Unicode scalar value (quick: boundary ranges + every 257th) raw/escaped/as key, escape forms incl. lone surrogates, nesting depths 1..39 and a ladder to 10000 (thorough 100000); each through the paths h2h, h2s, h2w, resp, t2t, t2w, ind2, indT, t2h; non-trivial = distinct correct output texts" % (len(LEAVES), len(KEYS))}
+                    "rule": "all documents of the stated shapes over %d leaves x %d keys (every leaf under every key, all ordered key pairs/triples, all trees of depth 2 with <=2 members over reduced alphabets), a number zoo, widths to 1000 (thorough 30000), every Unicode scalar value (quick: boundary ranges + every 257th) raw/escaped/as key, escape forms incl. lone surrogates, nesting depths 1..39 and a ladder to 10000 (thorough 100000); each through the paths h2h, h2s, h2w, resp, t2t, t2w, ind2, indT, t2h; non-trivial = distinct correct output texts" % (len(LEAVES), len(KEYS))}
     chk.assumptions = ["Python's json module is the independent strict parser", "comparison is unordered with numeric equality (key order and -0 vs 0 are not demanded)", "lone surrogate escapes may be refused (UTF-8 strings cannot hold them); they must not be corrupted silently into other text"]
     return chk.finish(exhaustive=True)
 
